@@ -273,7 +273,7 @@ def check_neg(ctx, case):
         else:
             classes.add("claimed-by-unrestricted-storage")
             if e["must_accept"] is True and c.result != 0:
-                ctx.fail("result", f"unrestricted:claimed-context-rejected:proposal={_pk(p)}", f"{where}: result {c.result} but the unrestricted storage service accepts all storage requests")
+                ctx.fail("result", "unrestricted:claimed-context-rejected", f"{where}: result {c.result} but the unrestricted storage service accepts all storage requests")
             if e["must_accept"] is False and c.result == 0:
                 ctx.fail("usable-role", "unrestricted:accepted-without-usable-role", f"{where}: accepted although the requestor proposed neither role (as_scu={c.as_scu} as_scp={c.as_scp})")
             if c.result == 0:
